@@ -35,6 +35,12 @@ impl ChannelSetup {
 // Channel as far as update_channel reads it
 pub struct Channel { pub id0: ChannelId, pub id: Option<ChannelId>, pub setup: ChannelSetup, pub enforcement_state: EnforcementState, pub rest: ChannelRest }
 
+impl Channel {
+// Channel::id(): the permanent id if there is one, else the node-assigned id (NOT what records are keyed by)
+//@fn vls-core/src/channel.rs :: impl Channel :: id props=C15
+    ensures r == (match self.id { Some(i) => i, None => self.id0 }),
+//@end
+}
 impl CoreChannelEntry {
 //@fn vls-persist/src/model.rs :: impl From<ChannelEntry> for CoreChannelEntry :: from props=C11
     ensures r.channel_value_satoshis == e.channel_value_satoshis && r.channel_setup == e.channel_setup && r.id == e.id
@@ -78,7 +84,7 @@ impl VxKvvPersister {
         r.is_ok() ==> kv_put(*self, chan_key(*node_id, channel.id0), ser_channel_entry(ChannelEntry {
             channel_value_satoshis: setup_value_sat(channel.setup), channel_setup: Some(channel.setup), id: channel.id,
             enforcement_state: channel.enforcement_state, blockheight: None })),                                   //[C11.store.channel-record-verbatim-under-id0]
-//@sub /make_key2\(CHANNEL_PREFIX, &node_id\.serialize\(\), channel\.id0\.as_slice\(\)\)/ => vx_chan_key(node_id, &channel.id0)
+//@sub /make_key2\(CHANNEL_PREFIX, &node_id\.serialize\(\), ([\w.()]+?)\.as_slice\(\)\)/ => vx_chan_key(node_id, &\1)
 //@sub /channel\.setup\.channel_value_sat/ => channel.setup.vx_channel_value_sat()
 //@sub /F::ser_value\(&entry\)\?/ => vx_ser_channel_entry(&entry)?
 //@end
